@@ -90,8 +90,6 @@ def run_faults(ctx, fmt, cpath, ncases, tag, env_extra=None):
         n, rid = int(n), int(rid)
         crashes += 1
         site_crashes[site] = site_crashes.get(site, 0) + 1
-        if crashes > 40:
-            raise Infra("fault harness crashed more than 40 times (%s)" % tag)
         tail = ""
         for ln in (p.stderr or "").splitlines():
             if ln.startswith(("fatal error:", "runtime:", "panic:")):
@@ -113,7 +111,22 @@ def run_faults(ctx, fmt, cpath, ncases, tag, env_extra=None):
         firstid = max(ids)
         skip = n
         stats_total["crash"] = stats_total.get("crash", 0) + 1
+        if crashes > 40:
+            # a decoder that keeps killing the process (an allocation the runtime cannot satisfy is not recoverable):
+            # every death so far is on record and is judged; the rest of the cases is not run
+            log("[c16] more than 40 process deaths (%s): stopping this format here" % tag)
+            stats_total["aborted_after_crashes"] = 1
+            break
     stats_total["records"] = sum(1 for _ in open(rpath))
+    if stats_total.get("crash"):
+        # the per-part statistics of a part that died are lost: count from the records themselves
+        for k in [k for k in stats_total if k.startswith(("outcome:", "site:")) or k == "valid"]:
+            del stats_total[k]
+        for r in vlib.read_ndjson(rpath):
+            stats_total["outcome:" + r["outcome"]] = stats_total.get("outcome:" + r["outcome"], 0) + 1
+            stats_total["site:" + r["site"]] = stats_total.get("site:" + r["site"], 0) + 1
+            if r.get("valid"):
+                stats_total["valid"] = stats_total.get("valid", 0) + 1
     return rpath, stats_total
 
 
